@@ -488,24 +488,47 @@ def soak(rng, tier, info):
         first = {}
         probe = sorted(set([0, 1, 2, 5, 7, S // 2, S - 1] + [v for v in (255, 256, 1023, 1024, 2047, 2048, 4095, 4096)
                                                              if v < S] + [rng.randrange(S) for _ in range(12)]))
+        kept = {}
+        once = []
         for i in range(S):
             c = x.ckd(i)
             n += 1
             if i in probe:
                 first[i] = impl.nodeS(c)
+                kept[i] = (c, c.public_key.sec(), impl.addr_fn(w, "p2wpkh")(c))     # the child OBJECT is kept, looked at later
+            elif i % 3 == 0:
+                once.append((i, c, c.public_key.sec()))                             # (read once now, once at the end)
         fw = impl.make_wallet(spec)
         fx = fw.by_path("m/84'/0'/0'/0")
         if kind == "pub":
             fx = PubKeyNode.parse(fx.extended_public_key(), testnet=fw.testnet)
         for i in probe:
             want = impl.nodeS(fx.ckd(i))
-            again = impl.nodeS(x.ckd(i))
-            viadp = impl.nodeS(x.derive_path([i]))
+            viadp = impl.nodeS(x.derive_path([i]))       # (looked up BEFORE the child is derived again: a repeated
+            again = impl.nodeS(x.ckd(i))                 # derivation may refresh what a lookup structure remembers)
             if not (first[i] == want == again == viadp):
                 yield ("# soak: %d children derived under one %s node object of wallet %s, then index %d requested again"
                        % (S, kind, spec, i),
                        "child %d differs from the stateless answer (first %s / repeated %s / derive_path %s / fresh %s)"
                        % (i, first[i][5:40], again[5:40], viadp[5:40], want[5:40]))
+                break
+        for i in probe:
+            c, sec0, addr0 = kept[i]
+            sec1, addr1 = c.public_key.sec(), impl.addr_fn(w, "p2wpkh")(c)
+            g1 = impl.nodeS(c.ckd(1))
+            g2 = impl.nodeS(fx.ckd(i).ckd(1))
+            if (sec1, addr1) != (sec0, addr0) or g1 != g2:
+                yield ("# soak: %d children derived under one %s node object of wallet %s; the child object %d kept from the "
+                       "start is looked at again" % (S, kind, spec, i),
+                       "a kept child answers differently than at first (public key %s, then %s; address %s, then %s; its "
+                       "child %s vs fresh %s)" % (sec0.hex()[:16], sec1.hex()[:16], addr0, addr1, g1[5:30], g2[5:30]))
+                break
+        for i, c, sec0 in once:
+            sec1 = c.public_key.sec()
+            if sec1 != sec0:
+                yield ("# soak: %d children derived under one %s node object of wallet %s; the public key of every third "
+                       "child was read once when it was derived and is read again at the end" % (S, kind, spec),
+                       "child %d (a kept object) now reports the public key %s, at first %s" % (i, sec1.hex(), sec0.hex()))
                 break
         if kind == "prv":
             for i in probe[:6]:
